@@ -151,6 +151,37 @@ def _work(indexed):
         return idx, None, traceback.format_exc()
 
 
+def _work_pristine(args):
+    """One work item in a process forked from a fork server that has imported the library but never used it: module-level
+    state of the library (caches, hoisted constants, registries) is as after `import`, whatever ran before in this check."""
+    modname, tier, seed, idx, item = args
+    try:
+        import importlib
+
+        mod = importlib.import_module(modname)
+        if hasattr(mod, "_TIER"):
+            mod._TIER[0] = tier
+        if hasattr(mod, "_SEED"):
+            mod._SEED[0] = seed
+        st = mod.work(item)
+        return idx, st, None
+    except BaseException:
+        return idx, None, traceback.format_exc()
+
+
+def run_pristine(module, tier, seed, pristine, jobs):
+    modname = getattr(getattr(module, "__spec__", None), "name", None) or module.__name__
+    ctx = multiprocessing.get_context("forkserver")
+    ctx.set_forkserver_preload([modname, "statham.schema.parser", "statham.serializers", "statham.titles", "json_ref_dict"])
+    pool = ctx.Pool(max(1, min(jobs, len(pristine))), maxtasksperchild=1)
+    try:
+        for res in pool.imap_unordered(_work_pristine, [(modname, tier, seed, 10 ** 6 + i, it) for i, it in enumerate(pristine)]):
+            yield res
+    finally:
+        pool.terminate()
+        pool.join()
+
+
 def load_known(prop):
     try:
         with open(KNOWN) as fh:
@@ -233,6 +264,14 @@ def main(module, argv=None):
         if pool:
             pool.terminate()
             pool.join()
+    pristine = list(plan.get("pristine_items", []))
+    if pristine:
+        for idx, st, err in run_pristine(module, args.tier, seed, pristine, args.jobs):
+            if err:
+                harness_errors.append((idx, err))
+                continue
+            total.merge(st)
+        total.c["pristine_process_items"] += len(pristine)
 
     extra = {}
     if hasattr(module, "finish"):
